@@ -126,7 +126,9 @@ Directed ==
                                  f \in CsiFinals \cup Unsupported }
 OscPayloads ==
   { <<>>, <<59>>, <<59, 120>>, <<59, 120, 59, 121>>, <<59, 92, 120>>, <<59, 93, 32, 233>>, <<59, 27, 120, 121>>,
-    <<59, 1, 120>>, <<59, 19968, 27, 93>>, <<120>>, <<59, 59>>, <<59, 120, 27, 27, 121>>, <<59, 24, 120>> }
+    <<59, 1, 120>>, <<59, 19968, 27, 93>>, <<59, 59>>, <<59, 59, 120>>, <<59, 120, 27, 27, 121>>, <<59, 24, 120>>,
+    <<59, 32, 120, 32>>, <<59, 120, 59>> }
+\* (payloads that do not start with `;` are outside the statement of C19 and are not generated)
 OscStrings ==
   { intro \o <<code>> \o pay \o term \o <<122>> :
       intro \in {<<27, 93>>, <<157>>}, code \in {48, 49, 50, 51, 57, 97},
